@@ -137,8 +137,62 @@ var utf8Atoms = [][]byte{
 
 var utf8AtomNames = []string{"stray-80", "stray-BF", "trunc-2", "trunc-3", "trunc-4", "overlong-2", "overlong-3", "surrogate", "above-F4", "FF"}
 
+var placementNames = []string{"after-backslash", "inside-string-value", "inside-key", "inside-number-or-literal", "between-tokens"}
+
+// placements lists, per syntactic class, the offsets (1..len-1) at which an atom can be inserted.
+func placements(b []byte) [5][]int {
+	var out [5][]int
+	inStr, esc, isKey := false, false, false
+	depthKinds := []byte{}
+	expectKey := false
+	for k := 0; k < len(b); k++ {
+		c := b[k]
+		if k >= 1 {
+			switch {
+			case inStr && esc:
+				out[0] = append(out[0], k)
+			case inStr && isKey:
+				out[2] = append(out[2], k)
+			case inStr:
+				out[1] = append(out[1], k)
+			case (c >= '0' && c <= '9') || (c >= 'a' && c <= 'z') || c == '.' || c == '-':
+				out[3] = append(out[3], k)
+			default:
+				out[4] = append(out[4], k)
+			}
+		}
+		if inStr {
+			if esc {
+				esc = false
+			} else if c == '\\' {
+				esc = true
+			} else if c == '"' {
+				inStr = false
+			}
+			continue
+		}
+		switch c {
+		case '"':
+			inStr, isKey = true, expectKey
+			expectKey = false
+		case '{':
+			depthKinds = append(depthKinds, '{')
+			expectKey = true
+		case '[':
+			depthKinds = append(depthKinds, '[')
+		case '}', ']':
+			if len(depthKinds) > 0 {
+				depthKinds = depthKinds[:len(depthKinds)-1]
+			}
+		case ',':
+			expectKey = len(depthKinds) > 0 && depthKinds[len(depthKinds)-1] == '{'
+		}
+	}
+	return out
+}
+
 var diskFaults = []string{"none", "torn", "torn", "torn", "utf8", "utf8", "bitflip", "garbage-span", "dropped-span", "duplicated-span",
-	"zero-tail", "random-bytes", "decorated", "read-fault", "read-fault"}
+	"zero-tail", "random-bytes", "decorated", "read-fault", "read-fault", "tiny-inputs"}
 
 func genDocument(s *simrt.Sim, objRoot bool) (any, string) {
 	o := treeOpts{depth: 1 + s.Draw("doc-depth", 3), width: 1 + s.Draw("doc-width", 6), jsonSafe: true}
@@ -313,6 +367,40 @@ func runDisk(ch *simrt.Chooser, opt Options) RunResult {
 			}
 			res.Faults = append(res.Faults, fmt.Sprintf("torn write: %d cut points", len(cuts)))
 			res.Finger = fnv(0, hashString("torn"), hashString(doc))
+		case "tiny-inputs":
+			// every 1-byte input, every 2-byte input over an alphabet of structural and boundary bytes, drawn 3-byte inputs:
+			// totality on the shortest inputs (empty, a lone bracket, a lone lead byte, a byte order mark cut short)
+			alpha := []byte("[]{}\",:\\ \n0-.e\x00\x7f\x80\xbb\xbf\xc3\xe2\xef\xf0\xff\xfe")
+			check := func(in []byte) {
+				for _, o := range []outcome{parseObj(string(in)), parseLst(string(in))} {
+					res.Evals++
+					if !o.exclusive() {
+						d.fail("not-exclusive", fmt.Sprintf("input %q gives %s (panic %q)", in, o.class(), o.pmsg))
+					}
+				}
+				if len(in) < 2 || in[0]%4 == 0 {
+					of := parseFil(d.store(in))
+					res.Evals++
+					if !of.exclusive() {
+						d.fail("not-exclusive", fmt.Sprintf("ParseFile on a file holding %q gives %s (panic %q)", in, of.class(), of.pmsg))
+					}
+				}
+			}
+			check(nil)
+			for x := 0; x < 256; x++ {
+				check([]byte{byte(x)})
+			}
+			for _, x := range alpha {
+				for _, y := range alpha {
+					check([]byte{x, y})
+				}
+			}
+			for i := 0; i < 200; i++ {
+				check([]byte{alpha[s.Draw("tiny", len(alpha))], alpha[s.Draw("tiny", len(alpha))], alpha[s.Draw("tiny", len(alpha))]})
+			}
+			fired("tiny-inputs")
+			res.Faults = append(res.Faults, "all 1-byte inputs, 2-byte inputs over a boundary alphabet, 200 drawn 3-byte inputs")
+			res.Finger = fnv(0, hashString("tiny"), uint64(s.Draw("tiny-id", 1<<20)))
 		case "utf8":
 			if len(b) < 3 {
 				both(b, "tiny document")
@@ -320,6 +408,14 @@ func runDisk(ch *simrt.Chooser, opt Options) RunResult {
 			}
 			a := s.Draw("atom", len(utf8Atoms))
 			pos := 1 + s.Draw("utf8-pos", len(b)-1) // strictly between the root brackets: 1 .. len-1
+			// placement classes: half of the runs aim at a position of a drawn syntactic class
+			if cls := s.Draw("utf8-class", 10); cls < 5 {
+				cands := placements(b)[cls]
+				if len(cands) > 0 {
+					pos = cands[s.Draw("utf8-class-pos", len(cands))]
+					res.Counters["probe:utf8-placement-"+placementNames[cls]]++
+				}
+			}
 			replace := s.Draw("utf8-replace", 3) == 0 && pos < len(b)-1
 			var mutated []byte
 			mutated = append(mutated, b[:pos]...)
